@@ -83,10 +83,18 @@ void fp2_read_bin(fp2_t a, const uint8_t *bin, size_t len) {
 		return;
 	}
 	if (len == RLC_FP_BYTES + 1) {
+		if (bin[RLC_FP_BYTES] > 1) {
+			RLC_THROW(ERR_NO_VALID);
+			return;
+		}
 		fp_read_bin(a[0], bin, RLC_FP_BYTES);
 		fp_zero(a[1]);
 		fp_set_bit(a[1], 0, bin[RLC_FP_BYTES]);
-		fp2_upk(a, a);
+		/* Reject strings that are not the compression of a unitary element. */
+		if (!fp2_upk(a, a) || (bin[RLC_FP_BYTES] == 1 && fp_is_zero(a[1]))) {
+			RLC_THROW(ERR_NO_VALID);
+			return;
+		}
 	}
 	if (len == 2 * RLC_FP_BYTES) {
 		fp_read_bin(a[0], bin, RLC_FP_BYTES);
@@ -498,7 +506,20 @@ void fp12_read_bin(fp12_t a, const uint8_t *bin, size_t len) {
 		fp2_read_bin(a[1][0], bin + 4 * RLC_FP_BYTES, 2 * RLC_FP_BYTES);
 		fp2_zero(a[1][1]);
 		fp2_read_bin(a[1][2], bin + 6 * RLC_FP_BYTES, 2 * RLC_FP_BYTES);
-		fp12_back_cyc(a, a);
+		if (fp12_is_zero(a)) {
+			/* The identity compresses to the all-zero string. */
+			fp12_set_dig(a, 1);
+		} else {
+			if (fp2_is_zero(a[1][0]) && fp2_is_zero(a[0][2])) {
+				RLC_THROW(ERR_NO_VALID);
+				return;
+			}
+			fp12_back_cyc(a, a);
+			if (!fp12_test_cyc(a)) {
+				RLC_THROW(ERR_NO_VALID);
+				return;
+			}
+		}
 	}
 	if (len == 12 * RLC_FP_BYTES) {
 		fp6_read_bin(a[0], bin, 6 * RLC_FP_BYTES);
@@ -514,7 +535,7 @@ void fp12_write_bin(uint8_t *bin, size_t len, const fp12_t a, int pack) {
 	RLC_TRY {
 		fp12_new(t);
 
-		if (pack) {
+		if (pack && fp12_test_cyc(a)) {
 			if (len != 8 * RLC_FP_BYTES) {
 				RLC_THROW(ERR_NO_BUFFER);
 			}
